@@ -57,7 +57,7 @@ def il_next_pc(ctx, lift, run, fst):
     return pc, none, exactly_one
 
 
-def analyse(arch, endian, item, specfn, k=4, timeout_ms=20000, observables=None, window=None, flag_names=(), groupfn=None):
+def analyse(arch, endian, item, specfn, k=4, timeout_ms=20000, observables=None, window=None, flag_names=(), groupfn=None, k_is_bound=False):
     """item: dict(bytes=hex, address=int, desc=...).  specfn(ctx, item, lift) -> SpecOut.
     Returns a result dict (picklable)."""
     t0 = time.time()
@@ -143,6 +143,10 @@ def analyse(arch, endian, item, specfn, k=4, timeout_ms=20000, observables=None,
         v2, m2, dt = solve.check([A, z3.Not(reach), z3.Not(pend)], timeout_ms); tsolve += dt
         if v2 == solve.SAT:
             res.update(status="sat", diffs=["incomplete"], model=model_dump(ctx, m2, spec, run), solver_s=tsolve)
+            return res
+        if k_is_bound:
+            # the caller's k is derived from the reference (e.g. REP count <= bound): an admitted state that needs more steps does not terminate as the reference does
+            res.update(status="sat", diffs=["needs-more-than-k-steps"], model=model_dump(ctx, m, spec, run), solver_s=tsolve, k_bound=k, detail=f"an admitted state does not reach the exit within {k} block steps")
             return res
         res.update(status="undecided", detail="some admitted state needs more than k steps", solver_s=tsolve)
         return res
